@@ -513,11 +513,16 @@ Print Assumptions C04_r4_from_integers.
 
 Theorem C04_r4_into_integers : forall x v,
   (gen_IBig_try_from_RBig x = Ok v <-> x = (v, 1)) /\
-  (gen_UBig_try_from_RBig x = Ok v <-> x = (v, 1) /\ 0 <= v) /\
-  (gen_IBig_try_from_Relaxed x = Ok v <-> x = (v, 1)) /\
-  (gen_UBig_try_from_Relaxed x = Ok v <-> x = (v, 1) /\ 0 <= v).
+  (gen_UBig_try_from_RBig x = Ok v <-> x = (v, 1) /\ 0 <= v).
 Proof. exact gen_try_into_int_ok. Qed.
 Print Assumptions C04_r4_into_integers.
+
+(* Relaxed -> integer (repaired in /repo 4757027: reduced first): decided by the value, not by the stored pair *)
+Theorem C04_r4_relaxed_into_integers : forall x v, 0 < snd x ->
+  (gen_IBig_try_from_Relaxed x = Ok v <-> veq x (v, 1)) /\
+  (gen_UBig_try_from_Relaxed x = Ok v <-> veq x (v, 1) /\ 0 <= v).
+Proof. exact gen_try_into_int_relaxed. Qed.
+Print Assumptions C04_r4_relaxed_into_integers.
 
 Theorem C04_r4_integer_valued_rbig_converts : forall x v, Inv x -> veq x (v, 1) -> gen_IBig_try_from_RBig x = Ok v.
 Proof. exact rbig_integer_converts. Qed.
